@@ -213,7 +213,7 @@ def emit_item(unit, store, relfile, path, mode):
         if pos < cur:
             raise ExtractError("overlapping anchors in " + key)
         unit.add(src[cur:pos], "repo", relfile, src.count("\n", 0, cur) + 1, key)
-        if anchor.startswith("pre ") or anchor.startswith("post "):
+        if anchor.startswith("pre ") or anchor.startswith("post ") or anchor.startswith("closure "):
             unit.add(MARK_IN, "marker", item=key)
             unit.add(" " + text.strip() + " ", "overlay", ov.specfile, sline, key)
             unit.add(MARK_OUT, "marker", item=key)
